@@ -20,7 +20,7 @@ OpSet ==
     \cup {[op |-> "set", a |-> a, e |-> e, enm |-> MaxN, sz |-> 4, ok |-> k] : a \in OBJ, e \in 1..2, k \in OKs}
     \cup {[op |-> "slice", a |-> a, beg |-> b, end |-> e, s |-> s] : a \in OBJ, s \in OBJ, b \in Bounds, e \in Bounds}
     \cup {[op |-> "unslice", s |-> s, a |-> a] : s \in OBJ, a \in OBJ}
-    \cup {[op |-> "reset", a |-> a] : a \in OBJ} \cup {[op |-> "release", a |-> a] : a \in OBJ}
+    \cup {[op |-> "reset", a |-> a] : a \in OBJ} \cup {[op |-> "release", a |-> a, nob |-> x] : a \in OBJ, x \in BOOLEAN}   \* nob: NULL out-parameter (documented as allowed)
     \cup {[op |-> "at", a |-> a, i |-> i] : a \in OBJ, i \in Bounds}
     \cup {[op |-> "data", a |-> a] : a \in OBJ} \cup {[op |-> "size", a |-> a] : a \in OBJ}
 Tgt(pre, s) == [a \in OBJ |-> IF s.obj[a].t > Len(pre.desc) THEN NEWB ELSE s.obj[a].t]
